@@ -15,7 +15,7 @@ import (
 )
 
 type c19P struct {
-	K string `json:"k"` // int str name path bound
+	K string `json:"k"` // int str name path bound sub subf call arr
 	I int    `json:"i,omitempty"`
 	S string `json:"s,omitempty"`
 }
@@ -32,6 +32,7 @@ type c19Case struct {
 	Pos   string `json:"pos"`
 	Bound string `json:"bound,omitempty"` // how the "bound" parameter name p1 is introduced: with for set
 	BVal  c19P   `json:"bval"`            // its value (int / str literal)
+	BVal2 c19P   `json:"bval2"`           // second value (Bound == "for2")
 	Neg   bool   `json:"neg,omitempty"`   // unary minus in front (numeric positions only)
 	Body  string `json:"body,omitempty"`  // filter tag: body kind
 }
@@ -40,7 +41,14 @@ func c19Context() pongo2.Context {
 	return pongo2.Context{
 		"s": "Hello World", "e": "", "n": 5, "z": 0, "f": 2.5, "l": []string{"b", "a", "c"}, "li": []int{3, 1, 2}, "nilv": nil, "tm": zTime,
 		"cfg": map[string]any{"sep": ", ", "w": 7, "fmt": "%v", "two": 2}, "html": "<b>x</b> & y", "items": []string{"i0", "i1", "i2", "i3"}, "plist": []int{4},
-		"words": "the quick brown fox jumps",
+		"words": "the quick brown fox jumps", "seps": []string{",", " ", "o", "World"},
+		"pick": func(i int) string {
+			seps := []string{",", " ", "o", "World"}
+			if i >= 0 && i < len(seps) {
+				return seps[i]
+			}
+			return ""
+		},
 	}
 }
 
@@ -52,6 +60,14 @@ func (p c19P) src() string {
 		return `"` + p.S + `"`
 	case "bound":
 		return "p1"
+	case "sub": // subscript with a literal index
+		return fmt.Sprintf("seps[%d]", p.I)
+	case "subf": // subscript whose index is itself a filtered expression
+		return fmt.Sprintf("seps[z|add:%d]", p.I)
+	case "call": // function call
+		return fmt.Sprintf("pick(%d)", p.I)
+	case "arr": // array literal naming the enclosing scope's variable
+		return `[p1, "-"]`
 	}
 	return p.S // name or dotted path
 }
@@ -66,6 +82,14 @@ func (cs *c19Case) value(p c19P) *pongo2.Value {
 		return pongo2.AsValue(p.S)
 	case "bound":
 		return cs.value(cs.BVal)
+	case "sub", "subf", "call":
+		seps := []string{",", " ", "o", "World"}
+		if p.I >= 0 && p.I < len(seps) {
+			return pongo2.AsValue(seps[p.I])
+		}
+		return pongo2.AsValue(nil)
+	case "arr":
+		return pongo2.AsValue([]any{cs.value(cs.BVal).Interface(), "-"})
 	case "path":
 		parts := strings.Split(p.S, ".")
 		m, _ := ctx[parts[0]].(map[string]any)
@@ -246,6 +270,9 @@ func (cs *c19Case) build() (files map[string]string, expect func(v *pongo2.Value
 	case "for":
 		// loop over a one-element literal list holding the value
 		src = "{% for p1 in [" + cs.BVal.src() + "] %}" + src + "{% endfor %}"
+	case "for2":
+		// the same compiled expression evaluated twice, with two values of the bound name
+		src = "{% for p1 in [" + cs.BVal.src() + ", " + cs.BVal2.src() + "] %}" + src + "|{% endfor %}"
 	}
 	files["/root.tpl"] = "{% autoescape off %}" + src + "{% endautoescape %}"
 	return files, expect, start
@@ -264,6 +291,42 @@ func checkC19(c any, r *Rec) error {
 		return fmt.Errorf("does not compile: %v\n src=%q", err, src)
 	}
 	got, xerr := tpl.Execute(c19Context())
+	if cs.Bound == "for2" {
+		// two passes of the loop: the expectation is computed pass by pass
+		var exp strings.Builder
+		anyErr := false
+		for _, bv := range []c19P{cs.BVal, cs.BVal2} {
+			one := *cs
+			one.BVal = bv
+			_, expect1, start1 := one.build()
+			w, ferr := one.fold(start1)
+			if ferr != nil {
+				anyErr = true
+				break
+			}
+			e := expect1(w)
+			if e == "?" || e == "!error" {
+				return skipf("not comparable")
+			}
+			exp.WriteString(e + "|")
+		}
+		if anyErr {
+			if xerr == nil {
+				return fmt.Errorf("ApplyFilter composition fails in one pass but the template rendered %q\n src=%q", got, src)
+			}
+			return nil
+		}
+		if xerr != nil {
+			return fmt.Errorf("unexpected error %v; pass-by-pass ApplyFilter composition gives %q\n src=%q", xerr, exp.String(), src)
+		}
+		if got != exp.String() {
+			return fmt.Errorf("position %s evaluated twice in a loop: rendered %q, pass-by-pass ApplyFilter composition gives %q\n src=%q", cs.Pos, got, exp.String(), src)
+		}
+		r.Class("pos:" + cs.Pos)
+		r.Class("two-passes")
+		r.NonTrivial(src)
+		return nil
+	}
 	want, ferr := cs.fold(start)
 	if ferr != nil {
 		if xerr == nil {
@@ -349,7 +412,13 @@ func genC19Param(t *rapid.T, bound bool) c19P {
 	case "name":
 		return c19P{K: "name", S: pick(t, "pn", []string{"n", "z", "s", "e", "f", "nilv", "undefinedname"})}
 	case "path":
+		if drawBool(t, "nested") {
+			return c19P{K: pick(t, "nk", []string{"sub", "subf", "call"}), I: drawInt(t, 0, 3, "ni")}
+		}
 		return c19P{K: "path", S: pick(t, "pp", []string{"cfg.sep", "cfg.w", "cfg.fmt", "cfg.two", "cfg.missing"})}
+	}
+	if drawInt(t, 0, 3, "arr") == 0 {
+		return c19P{K: "arr"}
 	}
 	return c19P{K: "bound"}
 }
@@ -366,11 +435,16 @@ func genC19(t *rapid.T) *c19Case {
 		cs.In = c19P{K: "name", S: pick(t, "inn", []string{"s", "e", "n", "z", "f", "l", "li", "nilv", "html", "words", "tm", "undefinedname"})}
 	}
 	if drawInt(t, 0, 2, "bound") == 0 {
-		cs.Bound = pick(t, "boundk", []string{"with", "for", "set"})
+		cs.Bound = pick(t, "boundk", []string{"with", "for", "set", "for2", "for2"})
 		cs.BVal = c19P{K: "int", I: drawInt(t, 0, 9, "bvi")}
+		cs.BVal2 = c19P{K: "int", I: drawInt(t, 0, 9, "bvi2")}
 		if drawBool(t, "bvs") {
 			cs.BVal = c19P{K: "str", S: pick(t, "bvstr", []string{"o", ",", "World", "1:2"})}
+			cs.BVal2 = c19P{K: "str", S: pick(t, "bvstr2", []string{"l", " ", "Hello", ":1"})}
 		}
+	}
+	if cs.Bound == "for2" && cs.Pos == "ifchanged" {
+		cs.Bound = "for" // ifchanged prints only when the value changed between the passes
 	}
 	n := drawInt(t, 0, 4, "chainlen")
 	for i := 0; i < n; i++ {
